@@ -22,7 +22,7 @@ type pgen struct{ r *rand.Rand }
 
 func (g *pgen) pick(xs ...string) string { return xs[g.r.Intn(len(xs))] }
 
-var strs = []string{"", "a", "ab", "abc abc", "aXbxc", "a,b, c", "é", "日本語", "a\nb", "test123", "AbC", "  pad ", "a\tb", "x=1&y=2", "<a href=\"x\">", "it's", "YWJj", "\u00e9\u0301", "😀a", "1", "-12", "1.5", "[1,2]", "{\"a\":1}", "null", "nan", "0x10", " 1 "}
+var strs = []string{"a.b.c", "1+1=2", "a|b|c", "(x)(y)", "a*b*c", "$5$", "x^y", "a\\b\\c", "q?r?", "[z][w]", "{k}{l}", "", "a", "ab", "abc abc", "aXbxc", "a,b, c", "é", "日本語", "a\nb", "test123", "AbC", "  pad ", "a\tb", "x=1&y=2", "<a href=\"x\">", "it's", "YWJj", "\u00e9\u0301", "😀a", "1", "-12", "1.5", "[1,2]", "{\"a\":1}", "null", "nan", "0x10", " 1 "}
 var nums = []string{"0", "1", "-1", "2", "3", "10", "255", "1.5", "-0.5", "0.1", "1e3", "1e-3", "100000000000000000000", "-9223372036854775809", "9007199254740993", "3.0", "1e1000", "-1e1000", "0.30000000000000004", "1234567890123456789012345678901234567890", "4294967296", "-0"}
 
 func (g *pgen) value(d int) any {
@@ -101,7 +101,7 @@ func (g *pgen) regexStage() string {
 }
 
 func (g *pgen) stringStage() string {
-	return g.pick("split(\",\")", "split(\"\")", "split(\" \")", "split("+g.strlit()+")", "ascii_downcase", "ascii_upcase", "ltrimstr(\"a\")", "rtrimstr(\"c\")",
+	return g.pick("split(\".\")", "split(\"+\")", "split(\"*\")", "split(\"|\")", "split(\"(\")", "split(\")\")", "split(\"[\")", "split(\"]\")", "split(\"{\")", "split(\"}\")", "split(\"^\")", "split(\"$\")", "split(\"?\")", "split(\"\\\\\")", "split(\"a.c\")", ". / \".\"", "[splits(\"[.]\")]", "split(\",\")", "split(\"\")", "split(\" \")", "split("+g.strlit()+")", "ascii_downcase", "ascii_upcase", "ltrimstr(\"a\")", "rtrimstr(\"c\")",
 		"startswith(\"a\")", "endswith("+g.strlit()+")", "explode", "explode | implode", "explode | map(. + 1) | implode", "@base64", "@base64d", "@base64 | @base64d", "@uri", "@csv", "@tsv", "@html", "@sh", "@json", "@text",
 		"@base32", "@base32d", "@urid", "@json \"v=\\(.)\"", "@base64 \"x\\(.)y\"", "@html \"<\\(.)>\"", "@sh \"echo \\(.)\"", "@uri \"q=\\(.)\"", "@csv \"\\([., 1])\"",
 		"tojson", "tostring", "tonumber", "length", "utf8bytelength", "\"\\(.)\"", "\"a\\(.)b\\(. | length)\"", ". * 2", ". * 0", ". / \",\"", "ascii", "indices(\"a\")", "index(\"b\")", "rindex(\"a\")",
